@@ -23,6 +23,55 @@ def heap_calls(ev):
   return out
 
 
+def is_last_slot(ev, slot):
+  """What the branch conditions on a path say about `slot` (resolved text) versus the last live slot
+  self._size: True (slot is the last one), False (it is not) or None (nothing tested)."""
+  verdict = None
+  for i, e in enumerate(ev):
+    if e.kind != 'cond' or not isinstance(e.node, ast.Compare) or len(e.node.ops) != 1:
+      continue
+    env = sym_env(ev, i)
+    l = U(sym_resolve(e.node.left, env)).replace(' ', '')
+    r = U(sym_resolve(e.node.comparators[0], env)).replace(' ', '')
+    op = type(e.node.ops[0]).__name__
+    if (l, r) == ('self._size', slot):
+      l, r = r, l
+      op = {'Lt': 'Gt', 'Gt': 'Lt', 'LtE': 'GtE', 'GtE': 'LtE'}.get(op, op)
+    if (l, r) != (slot, 'self._size'):
+      continue
+    truth = bool(e.info)
+    # slot <= size always holds for a live node
+    if op in ('Lt', 'NotEq'):
+      verdict = not truth
+    elif op in ('GtE', 'Eq'):
+      verdict = truth
+  return verdict
+
+
+def vacated_slot_repair(ev, ops, slot, guard_needed):
+  """ops: [(kind, args)] following Swap(heap, slot, size).  The element that lands in `slot` comes from the
+  end of the array, i.e. from an unrelated subtree: it may be larger than a child (FixDown over the
+  remaining size-1) or smaller than the new parent (FixUp).  Returns (ok, consumed, what)."""
+  fd = ('FixDown', ['self._heap', slot, 'self._size-1'])
+  fu = ('FixUp', ['self._heap', slot])
+  got = []
+  for o in ops[:2]:
+    if o in (fd, fu) and o not in got:
+      got.append(o)
+    else:
+      break
+  last = is_last_slot(ev, slot)
+  if fd not in got:
+    return False, len(got), 'vacated slot is not sifted down over the remaining size-1 nodes'
+  if fu in got:
+    if guard_needed and last is not False:
+      return False, len(got), 'FixUp of the vacated slot is not guarded by "slot is not the last one" (it would sift the departing node itself)'
+    return True, len(got), ''
+  if last is True:
+    return True, len(got), ''       # the node was the last one: nothing moved into its slot
+  return False, len(got), 'the node moved into the vacated slot is never sifted up (it comes from another subtree and may be smaller than its new parent)'
+
+
 def load_writes(ev):
   out = []
   for i, e in enumerate(ev):
@@ -221,11 +270,17 @@ def r3(ctx):
       seen.add('idle')
       i_ = '%s.index' % node
       j_ = 'random.randint(1,self._size)'
-      want = [('Swap', ['self._heap', i_, 'self._size']), ('FixDown', ['self._heap', i_, 'self._size-1']),
-              ('Swap', ['self._heap', j_, 'self._size']), ('FixUp', ['self._heap', j_]), ('FixUp', ['self._heap', 'self._size'])]
-      ok = ops == want
-      ctx.ob('C03.R3', p, 'idle node is moved out (Swap, FixDown over size-1) and re-inserted at a random slot (Swap, FixUp, FixUp)', ok,
-             'idle re-insertion ops: %s' % ops, why + '; both nodes moved by the second Swap have to be sifted up')
+      ok = bool(ops) and ops[0] == ('Swap', ['self._heap', i_, 'self._size'])
+      what = 'idle re-insertion ops: %s' % ops
+      if ok:
+        ok, used, w = vacated_slot_repair(ev, ops[1:], i_, guard_needed=True)
+        what = w or what
+        if ok:
+          rest = ops[1 + used:]
+          ok = rest == [('Swap', ['self._heap', j_, 'self._size']), ('FixUp', ['self._heap', j_]), ('FixUp', ['self._heap', 'self._size'])]
+          what = 'idle re-insertion ops: %s' % ops
+      ctx.ob('C03.R3', p, 'idle node is moved out (Swap, vacated slot sifted down over size-1 and up) and re-inserted at a random slot (Swap, FixUp, FixUp)', ok,
+             what, why + '; both nodes moved by the second Swap have to be sifted up')
     else:
       seen.add('plain')
       ok = ops == [('FixUp', ['self._heap', '%s.index' % node])]
@@ -265,14 +320,20 @@ def add_remove(ctx, rule='C03.R3'):
     ok = bool(nd)
     if ok:
       i_ = 'self._FindNodeByEndpoint(%s).index' % r.params[1]
-      ok = ops == [('Swap', ['self._heap', i_, 'self._size']), ('FixDown', ['self._heap', i_, 'self._size-1'])]
+      ok = bool(ops) and ops[0] == ('Swap', ['self._heap', i_, 'self._size'])
+      what_r = 'remove path ops %s' % ops
+      if ok:
+        ok, used, w = vacated_slot_repair(ev, ops[1:], i_, guard_needed=False)
+        what_r = w or what_r
+        ok = ok and len(ops) == 1 + used
     pops = [i for i, e in enumerate(ev) if e.kind == 'call' and U(e.node.func) == 'self._heap.pop' and not e.node.args]
     dec = [i for i, e in enumerate(ev) if e.kind == 'stmt' and isinstance(e.node, ast.AugAssign) and U(e.node.target) == 'self._size' and isinstance(e.node.op, ast.Sub) and U(e.node.value) == '1']
     hcs = heap_calls(ev)
     ok = ok and len(pops) == 1 and len(dec) == 1 and hcs and hcs[-1][0] < pops[0] < dec[0]
     mark = [e for e in ev if e.kind == 'stmt' and isinstance(e.node, ast.Assign) and nd and U(e.node.targets[0]) == nd[0] + '.index' and U(e.node.value) == '-1']
     ok = ok and len(mark) == 1
-    ctx.ob(rule, r, 'remove: Swap(i, size), FixDown(i, size-1), pop, size -= 1, index = -1', ok, 'remove path ops %s, pops %s, size decs %s' % (ops, pops, dec), why)
+    ctx.ob(rule, r, 'remove: Swap(i, size), vacated slot sifted down over size-1 and up, pop, size -= 1, index = -1', ok,
+           '%s; ops %s, pops %s, size decs %s' % (what_r if nd else 'node lookup changed', ops, pops, dec), why)
   ctx.floor(rule, 'remove paths', n, 1)
   fn = prog.func(H, 'HeapBalancerSink._FindNodeByEndpoint')
   t = U(fn.node).replace(' ', '')
